@@ -39,6 +39,12 @@ FIXTURES = [
     ("c05_good_reset_clear_resize", "good", []),
     ("c05_good_reset_fill", "good", []),
     ("c05_good_ifelse", "good", []),
+    ("c05_good_find_iterative", "good", []),
+    ("c05_bad_find_iter_one_step", "bad", ["D6"]),
+    ("c05_bad_find_iter_store_reversed", "bad", ["D6"]),
+    ("c05_good_link_helper", "good", []),
+    ("c05_bad_link_pub_caller", "bad", ["D7", "D4"]),
+    ("c05_bad_link_helper_reversed", "bad", ["D1"]),
 ]
 
 
@@ -48,21 +54,37 @@ def roles(crate):
     if len(vecs) != 2:
         raise Anchor("DSU is expected to have exactly two Vec<usize> fields, found %d" % len(vecs))
     find = util.need_body(crate, "DSU::par")
-    if not util.self_recursive(find):
-        raise Anchor("DSU::par is expected to be the self-recursive find")
-    # parent field = the field stored to in find
+    # parent field = the array find walks: the field it stores into, or (a find without compression)
+    # the only array it reads
     I = util.analyse(find)
-    pf = set()
-    for st in I.final_states:
-        for ev in util.events_of(st, "store"):
+    pf, rf = set(), set()
+    for st in I.all_end_states():
+        for ev in st.event_list():
             for f in vecs:
-                if util.index_into_field(ev.place, f) is not None:
+                if ev.kind == "store" and util.index_into_field(ev.place, f) is not None:
                     pf.add(f)
-    if len(pf) != 1:
-        raise Anchor("cannot identify the parent array: find stores into fields %s" % sorted(pf))
-    p = pf.pop()
+                if ev.kind == "call" and ev.extra.get("name") in ("index", "index_mut") and ev.args and ev.args[0][0] == "ref" and ev.args[0][1][0] == "field" and ev.args[0][1][2] == f:
+                    rf.add(f)
+    cand = pf or rf
+    if len(cand) != 1:
+        raise Anchor("cannot identify the parent array: find stores into fields %s, reads %s" % (sorted(pf), sorted(rf)))
+    p = cand.pop()
     sz = [f for f in vecs if f != p][0]
     return adt, find, p, sz
+
+
+def helpers_of(crate, find):
+    """private, non-recursive inherent methods of DSU: judged in the context of their callers (inlined)"""
+    return [b for b in util.methods_of(crate, "DSU") if b.vis != "pub" and b.key != find.key and not util.self_recursive(b)]
+
+
+def ev_loc(crate, body, ev):
+    inn = (ev.extra or {}).get("in") if isinstance(ev.extra, dict) else None
+    if inn:
+        for b in crate.bodies:
+            if b.path == inn:
+                return b.loc(ev.bb, ev.idx) if ev.idx is not None else b.loc(ev.bb)
+    return body.loc(ev.bb, ev.idx) if ev.idx is not None else body.loc(ev.bb)
 
 
 def check(col, prog, tier, profile, fixture=None):
@@ -80,7 +102,10 @@ def check(col, prog, tier, profile, fixture=None):
     col.rule("D6" + sfx, "find: recursion under parent[v]!=v, stores recursion result, returns parent[v]", floor=3)
     col.rule("D7" + sfx, "parent/size arrays written only by new, reset, find, un", floor=1)
 
-    I = util.analyse(un)
+    helpers = helpers_of(crate, find)
+    inl = frozenset(h.key for h in helpers)
+    A = (lambda b: util.analyse(b, inline=inl)) if inl else util.analyse
+    I = A(un)
     find_calls = lambda st: [e for e in util.events_of(st, "call") if e.callee == find.path or (e.fn.get("resolved") or e.fn).get("def") == find.key]
     for n, st in enumerate(I.final_states):
         evs = st.event_list()
@@ -119,7 +144,7 @@ def check(col, prog, tier, profile, fixture=None):
             szx, szy = _nf(szx), _nf(szy)
             facts = frozenset(("eq" if f[0] == "eq" else "ne", _nf(f[1]), f[2]) for f in st.facts)
             ok = zones.entails(facts, "Le", szx, szy, I.tys)
-            loc = un.loc(ev.bb, ev.idx)
+            loc = ev_loc(crate, un, ev)
             if ok:
                 col.ok("D1" + sfx, loc, "%s|parent-store|%s" % (fk(un), pathkey), "entailed: %s <= %s" % (tstr(szx), tstr(szy)))
             else:
@@ -143,11 +168,11 @@ def check(col, prog, tier, profile, fixture=None):
                 col.violation("D2" + sfx, "%s|size-store" % fk(un), loc, "after parent[x]=y the size bookkeeping is not size[y] += size[x] (%s)" % why)
 
     # ---- D4: every index into the size array outside new/reset is a find result
-    exempt = {"new", "reset"}
+    exempt = {"new", "reset"} | {h.name for h in helpers}
     for b in util.methods_of(crate, "DSU"):
         if b.name in exempt:
             continue
-        Ib = util.analyse(b)
+        Ib = A(b)
         seen = set()
         for st, ev in Ib.call_events(lambda e: e.extra.get("name") in ("index", "index_mut")):
             base = ev.args[0]
@@ -162,7 +187,7 @@ def check(col, prog, tier, profile, fixture=None):
                 continue
             seen.add(k)
             isfind = idx[0] == "call" and idx[1] in (find.path, find.key)
-            loc = b.loc(ev.bb)
+            loc = ev_loc(crate, b, ev)
             if isfind:
                 col.ok("D4" + sfx, loc, "%s|size[%s]" % (fk(b), tstr(idx)), "index is a result of find")
             else:
@@ -172,34 +197,10 @@ def check(col, prog, tier, profile, fixture=None):
     _check_init(col, crate, "D5" + sfx, P, SZ)
 
     # ---- D6 find
-    If = util.analyse(find)
-    v = ("param", 2, If.names.get(2))
-    for n, st in enumerate(If.final_states):
-        evs = st.event_list()
-        rec = [e for e in evs if e.kind == "call" and (e.fn.get("resolved") or e.fn).get("def") == find.key]
-        stores = [e for e in evs if e.kind == "store"]
-        ret = util.ret_term(st)
-        selfp = ("deref", ("param", 1, If.names.get(1)))
-        pv0 = ("load", ("m0",), ("index", ("field", selfp, P), v))
-        facts = frozenset((f[0], _nf(f[1]), f[2]) for f in st.facts)
-        if rec:
-            e = rec[0]
-            ok = zones.entails(facts, "Ne", pv0, v, If.tys)
-            ok = ok and len(stores) == 1 and util.index_into_field(stores[0].place, P) == v and stores[0].val == e.res
-            ok = ok and ret == e.res and _nf(e.args[1]) == pv0
-            if ok:
-                col.ok("D6" + sfx, find.loc(e.bb), "%s|recursive-path" % fk(find), "recursion on parent[v] under parent[v]!=v; parent[v] := result; returns it")
-            else:
-                col.violation("D6" + sfx, "%s|recursive-path" % fk(find), find.loc(e.bb), "find's recursive path is not: if parent[v]!=v { parent[v] = find(parent[v]) } return parent[v]", {"ret": tstr(ret), "stores": [repr(s) for s in stores]})
-        else:
-            ok = not stores and _nf(ret) == pv0 and zones.entails(facts, "Eq", pv0, v, If.tys)
-            if ok:
-                col.ok("D6" + sfx, find.loc(), "%s|root-path" % fk(find), "returns parent[v] == v without writing")
-            else:
-                col.violation("D6" + sfx, "%s|root-path" % fk(find), find.loc(), "find's non-recursive path must return parent[v] under parent[v]==v and write nothing (got %s)" % tstr(ret))
+    _check_find(col, crate, "D6" + sfx, find, P, SZ)
     chk_b = util.opt_body(crate, "DSU::check")
     if chk_b is not None:
-        Ic = util.analyse(chk_b)
+        Ic = A(chk_b)
         for st in Ic.final_states:
             fc = [e for e in util.events_of(st, "call") if (e.fn.get("resolved") or e.fn).get("def") == find.key]
             ret = util.ret_term(st)
@@ -210,7 +211,7 @@ def check(col, prog, tier, profile, fixture=None):
                 col.violation("D6" + sfx, "%s|compares-two-finds" % fk(chk_b), chk_b.loc(), "check must compare find(u) with find(v), got %s" % tstr(ret))
     size_b = util.opt_body(crate, "DSU::size")
     if size_b is not None:
-        Is = util.analyse(size_b)
+        Is = A(size_b)
         for st in Is.final_states:
             ret = _nf(util.ret_term(st))
             ok = ret[0] == "load" and util.index_into_field(ret[2], SZ) is not None and ret[2][2][0] == "call" and ret[2][2][1] in (find.path, find.key)
@@ -221,6 +222,20 @@ def check(col, prog, tier, profile, fixture=None):
 
     # ---- D7 who may write
     allowed = {"new", "reset", find.name, "un"}
+    # a private helper may write when every caller (transitively) may
+    callers = {}
+    for b in crate.bodies:
+        for bb, t in b.calls():
+            k = util.callee_key(t)
+            root = b if not b.is_closure else crate.by_key.get(b.parent, b)
+            callers.setdefault(k, set()).add(root.name)
+    changed = True
+    while changed:
+        changed = False
+        for h in helpers:
+            if h.name not in allowed and callers.get(h.key) and callers[h.key] <= allowed:
+                allowed.add(h.name)
+                changed = True
     writers = set()
     for b in crate.bodies:
         imp = crate.impl_of(b)
@@ -240,12 +255,114 @@ def check(col, prog, tier, profile, fixture=None):
                             continue
                         writers.add(b.name)
                         if b.name not in allowed:
-                            col.violation("D7" + sfx, "%s|writes-array" % fk(b), b.loc(bb, idx), "%s takes a mutable borrow of / assigns a DSU array; only new, reset, find and un may" % b.path)
+                            col.violation("D7" + sfx, "%s|writes-array" % fk(b), b.loc(bb, idx), "%s takes a mutable borrow of / assigns a DSU array; only new, reset, find, un (and private helpers called only from them) may" % b.path)
     col.ok("D7" + sfx, "-", "writers=%s" % ",".join(sorted(writers)), "mutable accesses of the arrays only in %s" % sorted(writers))
 
 
 def _nf(t):
     return t
+
+
+def _check_find(col, crate, rid, find, P, SZ):
+    """find, recursive or iterative.  chain(v) = {v} + parent loads at chain terms + loop variables whose entry
+    and back-edge values are chain terms + find(chain term).  Rules on every path (final and back-edge states):
+    no size store; every parent store is at a chain index and stores a ROOT (a find() result on a chain term, or a
+    chain term r with the path fact parent[r] == r); the returned value is a root; a recursive call is made on
+    parent[v] under parent[v] != v."""
+    fk = util.fkey
+    If = util.analyse(find)
+    v = ("param", 2, If.names.get(2))
+    selfp = ("deref", ("param", 1, If.names.get(1)))
+    headof = {}
+    for h in If.loops:
+        headof[If.uid(h)] = h
+
+    def pidx(t):
+        """t == load(_, self.p[i]) -> i"""
+        if t[0] == "load":
+            return util.index_into_field(t[2], P)
+        return None
+
+    def is_find(t):
+        return t[0] == "call" and t[1] in (find.path, find.key)
+
+    def chain(t, seen=None):
+        seen = set() if seen is None else seen
+        if t == v:
+            return True
+        i = pidx(t)
+        if i is not None:
+            return chain(i, seen)
+        if is_find(t):
+            return chain(t[2][1], seen)
+        if t[0] == "phi" and t[1] in headof:
+            if t in seen:
+                return True
+            seen.add(t)
+            h = headof[t[1]]
+            vals = [env.get(t[2]) for env in If.loop_entry.get(h, [])] + [st.env.get(t[2]) for st in If.backedge_states.get(h, [])]
+            return bool(vals) and all(x is not None and chain(x, seen) for x in vals)
+        return False
+
+    def root(t, facts):
+        if is_find(t) and chain(t[2][1]):
+            return True
+        if not chain(t):
+            return False
+        cands = [t]
+        i = pidx(t)
+        if i is not None:
+            cands.append(i)  # parent[i] when the facts say parent[i] == i
+        loads = set()
+        for f in facts:
+            for x in subterms(f[1]):
+                if pidx(x) is not None:
+                    loads.add(x)
+        for r in cands:
+            for ld in loads:
+                if pidx(ld) == r and zones.entails(facts, "Eq", ld, r, If.tys) and (r == t or zones.entails(facts, "Eq", t, r, If.tys)):
+                    return True
+        return False
+
+    nstore = 0
+    for n, st in enumerate(If.all_end_states()):
+        evs = st.event_list()
+        facts = st.facts
+        for e in evs:
+            if e.kind != "store":
+                continue
+            if util.index_into_field(e.place, SZ) is not None:
+                col.violation(rid, "%s|writes-size" % fk(find), find.loc(e.bb, e.idx), "find writes the size array")
+                continue
+            i = util.index_into_field(e.place, P)
+            if i is None:
+                continue
+            nstore += 1
+            okc = chain(i)
+            okr = root(e.val, e.state[0] if e.state else facts) or root(e.val, facts)
+            key = "%s|compression-store" % fk(find)
+            if okc and okr:
+                col.ok(rid, find.loc(e.bb, e.idx), key + "|%d" % n, "parent[%s] := %s: index on the path from v, value its root" % (tstr(i), tstr(e.val)))
+            else:
+                col.violation(rid, key, find.loc(e.bb, e.idx), "find stores parent[%s] := %s, but %s: path compression may only re-point vertices on the path from v at the root" % (tstr(i), tstr(e.val), "the index is not on the parent chain of v" if not okc else "the value is not known to be the root (no find result, no parent[r]==r fact)"))
+    for n, st in enumerate(If.final_states):
+        evs = st.event_list()
+        ret = util.ret_term(st)
+        rec = [e for e in evs if e.kind == "call" and (e.fn.get("resolved") or e.fn).get("def") == find.key]
+        key = "%s|returns-root" % fk(find)
+        if root(ret, st.facts):
+            col.ok(rid, find.loc(), key + "|%d" % n, "returns %s, a root of v's chain on this path" % tstr(ret))
+        else:
+            col.violation(rid, key, find.loc(), "find returns %s, which is not known to be the root of v on this path (neither a find result nor a chain term r with parent[r]==r)" % tstr(ret), {"facts": [tstr(f[1]) for f in st.facts]})
+        for e in rec:
+            a = e.args[1]
+            i = pidx(a)
+            ok = i is not None and chain(i) and zones.entails(e.state[0], "Ne", a, i, If.tys)
+            key = "%s|recursive-call" % fk(find)
+            if ok:
+                col.ok(rid, find.loc(e.bb), key + "|%d" % n, "recursion on parent[x] under parent[x] != x")
+            else:
+                col.violation(rid, key, find.loc(e.bb), "find recurses on %s without the path fact that it differs from its own argument (parent[x] != x): no progress towards the root" % tstr(a))
 
 
 def _check_init(col, crate, rid, P, SZ):
@@ -257,7 +374,12 @@ def _check_init(col, crate, rid, P, SZ):
     for st in I.final_states:
         ret = util.ret_term(st)
         if not (ret[0] == "agg" and isinstance(ret[1], tuple) and ret[1][0] == "adt"):
-            # delegating constructor: accept a call to reset(n) on the result
+            # delegating constructor: builds some value, calls reset(&mut it, n), returns it
+            rs = [e for e in st.event_list() if e.kind == "call" and (e.fn.get("resolved") or e.fn).get("def") == util.need_body(crate, "DSU::reset").key]
+            if rs and ret[0] == "out" and rs[-1].args[1] == n and rs[-1].args[0][0] == "ref" and rs[-1].args[0][1] == ("local", ret[2]) and ret[1] == rs[-1].extra.get("uid"):
+                col.ok(rid, new.loc(), "%s|parent" % util.fkey(new), "new(n) returns the value initialised by reset(n)")
+                col.ok(rid, new.loc(), "%s|size" % util.fkey(new), "new(n) returns the value initialised by reset(n)")
+                continue
             col.violation(rid, "%s|unrecognised-construction" % util.fkey(new), new.loc(), "DSU::new does not build the struct from recognisable initialisers: %s" % tstr(ret))
             continue
         for f, role in want.items():
@@ -288,7 +410,7 @@ def _check_init(col, crate, rid, P, SZ):
     for st in I.all_end_states():
         cleared = set()
         for ev in st.event_list():
-            if ev.kind == "call" and ev.extra.get("name") in ("resize", "clear", "fill"):
+            if ev.kind == "call" and ev.extra.get("name") in ("resize", "clear", "fill", "extend"):
                 a = ev.args[0]
                 tgt = [x for x in subterms(a) if x[0] == "ref" and x[1][0] == "field" and x[1][2] in resized]
                 if not tgt:
@@ -297,6 +419,10 @@ def _check_init(col, crate, rid, P, SZ):
                 nmc = ev.extra.get("name")
                 if nmc == "clear":
                     cleared.add(f)
+                elif nmc == "extend" and f in cleared and want[f] == "index" and ev.args[1][0] == "agg" and isinstance(ev.args[1][1], tuple) and str(ev.args[1][1][1]).endswith("ops::Range") and ev.args[1][2] == (mk_int(0), n):
+                    # clear(); extend(0..n)
+                    resized[f] = True
+                    done[f] = True
                 elif nmc == "resize" and ev.args[1] == n:
                     resized[f] = True
                     # clear(); resize(n, 1) initialises every element
